@@ -651,7 +651,7 @@ func main() {
 		"the reference-curve facts used by pub_commutes / ckd_pub_spec / derive_is_bip32 ((a+k mod n)G = aG + kG, parse∘serP = id on curve points, jG finite for 0<j<n) are no longer assumed: they are derived in Proofs/C14Curve.lean from C03's reference_curve_group_law / generator_order / parsePubkey_ser33 (Mathlib's Weierstrass group law; p, n prime by C08_Primes); serialize/WIF round trips import C15's Base58 decode∘encode = id",
 		"outside the model (answer `outside`): private EXTENDED keys ≡ 0 mod n (PublicFromPrivate returns nil and Child / Pub / PubAddr go on with the nil key) - the real code is RUN there all the same; the point at infinity is not serialised any more (fix for C08's api-*-identity findings): NewPrivateAddr / DecodePrivateAddr of a key ≡ 0 mod n panic, public Child with I_L·G + P = ∞ panics, DeriveNextPublic returns the zero buffer - code and model alike (corpus key-0 / key-n / infinity, keys wif-key-zero-mod-n-accepted, derive-next-public-infinity). In the outside region the code is judged by the BIP32 reference wherever that defines a result or demands a refusal; only the junk value is uncompared. Public keys with x ≥ p or x off the curve are NOT outside any more: code (since fix 54b4684a/e70a8ce2) and model refuse them / panic, corpus badPubKeys",
 		"sessions judge a transaction signature with the repository's own interpreter (script.VerifyTxScript, standard flags - the subject of C01/C03) plus an independent comparison of the public key the input carries; message / hash signatures are verified with an independent math/big ECDSA. The store model takes the list of functions that write stored keys, and the template dispatch of pkscr_to_key_idx, from the source (Gen/WalletKeyStoreFacts.lean: a syntactic, conservative analysis - names, aliases, helper parameters and results to a fixpoint; key bytes or a record handed to any callee outside a fixed reader allow-list count as written). NOT seen by those facts, guarded by the sessions only: writes inside an allow-listed reader or in another package (lib/btc, lib/secp256k1), reflection / unsafe, key bytes passed through channels, maps, package variables or non-record struct fields, goroutines, and the conditions inside the lookup loops (only their first-match shape is checked)",
-		"not covered: a typed password in a combined -sign .. -send run (asked for twice), P2PK / multisig outputs and foreign-form ADDRESSES given to -sign in sessions, non-ASCII white space in mnemonics, typed passwords longer than one 1024-byte terminal read, .others imports, the -p39 prompt (passphrases at the API level only; NFKD: known finding bip39-passphrase-not-nfkd), -encrypt/-decrypt",
+		"not covered: a typed password in a combined -sign .. -send run (asked for twice), P2PK / multisig outputs and foreign-form ADDRESSES given to -sign in sessions, non-ASCII white space in mnemonics, typed passwords longer than one 1024-byte terminal read, .others imports inside SESSIONS (the wallet cases import compressed and uncompressed keys and judge every line of the list and -dump <address> for every line; the Lean model describes the derived keys only, the imported lines are judged by the reference), the -p39 prompt (passphrases at the API level only; NFKD: known finding bip39-passphrase-not-nfkd), -encrypt/-decrypt",
 	}
 	r.Extra["observations"] = []string{
 		"HDWallet.Child never skips an index: BIP32 says I_L >= n or k_i = 0 makes index i invalid; Child reduces mod n and returns a key (theorem child_priv_never_skips; probability about 2^-127 per index; ckd_priv_spec / ckd_pub_spec are stated under exactly the guard 'CKD is defined')",
@@ -760,6 +760,14 @@ func main() {
 	// sessions: one invocation doing several things with its key store (-sign … together with -send / -raw / -l)
 	cases = append(cases, corpusSessions()...)
 	cases = append(cases, genSessions(g.Fork(), r.N(40, 400))...)
+	// input classes added after the existing streams (their forks leave the streams above as they were): the -stdin
+	// password in several writes, keys imported from .others, seed= prefixes with a second generation in one process
+	cases = append(cases, corpusStdinChunked()...)
+	cases = append(cases, genStdinChunked(g.Fork(), r.N(10, 120))...)
+	cases = append(cases, corpusWalletsOthers()...)
+	cases = append(cases, genWalletsOthers(g.Fork(), r.N(12, 150))...)
+	cases = append(cases, corpusSessionsPrefix()...)
+	cases = append(cases, genSessionsPrefix(g.Fork(), r.N(10, 120))...)
 	for _, c := range cases {
 		if c.Kind == "wallet" || c.Kind == "child" || c.Kind == "entropy" {
 			r.Sample(c)
@@ -770,6 +778,6 @@ func main() {
 	}
 	runCases(cases)
 	os.RemoveAll(walletTmp)
-	r.Finish("corpus (BIP32 vectors 1/2 and BIP39 vectors read from the repository's tests, hand-made boundaries) + seeded generators: HD walks over 6 private prefixes and their public counterparts with edge indexes; extended-key / WIF strings valid and mutated; BIP39 entropy of every size, mnemonics valid / checksum siblings / replaced / swapped / wrong count / unknown word / odd white space; wallet binary over types 3/4, paths of depth 1..6, hdsubs 1..3, bip39 0/12..24/-1, 5 address types, testnet/litecoin, seed= prefix, non-ASCII and >1024-byte passwords, -stdin, scrypt; SESSIONS of the wallet binary (one invocation doing several things with its key store): configuration x [-sign <listed or P2KH address of key i> -msg/-hash] x [nothing | -send | -raw | -l] x balance folders paying listed keys in the P2PKH / P2SH-P2WPKH / P2WPKH / P2TR forms x -rfc6979, litecoin included. A case is distinct by its full input.",
+	r.Finish("corpus (BIP32 vectors 1/2 and BIP39 vectors read from the repository's tests, hand-made boundaries) + seeded generators: HD walks over 6 private prefixes and their public counterparts with edge indexes; extended-key / WIF strings valid and mutated; BIP39 entropy of every size, mnemonics valid / checksum siblings / replaced / swapped / wrong count / unknown word / odd white space; wallet binary over types 3/4, paths of depth 1..6, hdsubs 1..3, bip39 0/12..24/-1, 5 address types, testnet/litecoin, seed= prefix, non-ASCII and >1024-byte passwords, -stdin (also with the password arriving in 2..4 writes, the next one only after the wallet has read the previous one), keys imported from .others (compressed / uncompressed / labelled / non-key lines, in front of the derived keys), scrypt; SESSIONS of the wallet binary (one invocation doing several things with its key store): configuration x [-sign <listed or P2KH address of key i> -msg/-hash] x [nothing | -send | -raw | -l] x balance folders paying listed keys in the P2PKH / P2SH-P2WPKH / P2WPKH / P2TR forms x -rfc6979, litecoin included, plus seed= prefixes of 1..70 (corpus: up to 90) bytes with short and ordinary passwords in runs that generate the wallet twice (-sign .. -send .. -l). A case is distinct by its full input.",
 		"Lean model (HD.lean, Bip39.lean, WalletKeys.lean) vs btc.HDWallet / PrivateAddr / bip39 API in process and vs the real wallet binary (wallet.txt, -dump *, -xprv, -words), plus the property predicate evaluated on the real output against an independent math/big BIP32/BIP39 reference: keys = CKDpriv along the path, CKDpub∘N = N∘CKDpriv, listed address = address of the dumped key, WIF / xprv / xpub re-import, -dump <address> returns the listed key, two runs identical; sessions: the message signature recovers (independent ECDSA) to the key of the address given to -sign, every input of the transaction written later in the same run carries the public key of the listed address it spends from and verifies under the real interpreter, a list printed in a combined run is the reference list once per make_wallet call, and the store model (Model/WalletKeysStore.lean, oracle op session) names for every operation key bytes that belong to the public key in the real signature.")
 }
